@@ -15,7 +15,7 @@ def fmt_bit(nb):
     return n if i is None else "%s[%d]" % (n, i)
 
 
-def gen_design(r, features=("cname", "attr", "param", "names", "latch", "conn", "undeclared", "bus", "consts"), conn_top_bits_only=False):
+def gen_design(r, features=("cname", "attr", "param", "names", "latch", "conn", "undeclared", "bus", "consts")):
     uid = [0]
 
     def fresh(prefix):
@@ -132,16 +132,6 @@ def gen_design(r, features=("cname", "attr", "param", "names", "latch", "conn", 
         bits = [nb for nb in nets if nb[1] is not None and nb not in outputs and nb not in inputs]
         if bits and sc and "bus" in features and r.random() < 0.5:
             # a bus bit joined to a scalar net or to a bit of ANOTHER bus with a different index
-            if conn_top_bits_only:
-                # (fence of finding eblif-conn-on-bus-bit-renumbers-bus: only the highest bit of a bus is joined)
-                top_of = {}
-                for nb in nets:
-                    if nb[1] is not None:
-                        top_of[nb[0]] = max(top_of.get(nb[0], -1), nb[1])
-                bits = [nb for nb in bits if nb[1] == top_of[nb[0]]] or bits[:0]
-                if not bits:
-                    return {"top": fresh("top"), "inputs": inputs, "outputs": outputs, "models": models, "items": items, "conns": conns,
-                            "comments": []}
             a = r.choice(bits)
             others = [nb for nb in bits if nb[0] != a[0] and nb[1] != a[1]]
             b = r.choice(others) if others and r.random() < 0.6 else r.choice(sc)
@@ -290,3 +280,19 @@ def expected_nets(design, name_of):
     for key, ps in pins.items():
         groups.setdefault(find(key), set()).update(ps)
     return set(frozenset(g) for g in groups.values() if g)
+
+
+def conn_below_top_bit(design):
+    """True when a .conn operand is a bus bit that is not the highest bit of its bus (finding eblif-conn-on-bus-bit-renumbers-bus)."""
+    top_of = {}
+    nets = set(design["inputs"]) | set(design["outputs"])
+    for it in design["items"]:
+        for (_, _, nb) in it["pins"]:
+            if nb is not None:
+                nets.add(nb)
+    for a, b in design["conns"]:
+        nets.add(a); nets.add(b)
+    for nb in nets:
+        if nb[1] is not None:
+            top_of[nb[0]] = max(top_of.get(nb[0], -1), nb[1])
+    return any(x[1] is not None and x[1] < top_of[x[0]] for c in design["conns"] for x in c)
